@@ -50,7 +50,14 @@ type c01Plan struct {
 
 func c01DrawPlan(t *rapid.T) c01Plan {
 	var p c01Plan
-	nw := rapid.IntRange(2, 4).Draw(t, "workers")
+	maxW := 4
+	if os.Getenv("VF_WORKERS_MAX") == "2" {
+		// exactly two producers: at most one Flush waiter exists at any time, so the
+		// run does not depend on which of several woken waiters wins the mutex and every
+		// failure replays deterministically
+		maxW = 2
+	}
+	nw := rapid.IntRange(2, maxW).Draw(t, "workers")
 	for w := 0; w < nw; w++ {
 		n := rapid.IntRange(1, 3).Draw(t, "nops")
 		ops := make([]c01Op, n)
@@ -395,7 +402,11 @@ func c01Sample(p c01Plan, r c01Result) map[string]any {
 }
 
 func c01Check(t *testing.T, focus string) {
-	st := vfkit.NewStats(focus, "logsched")
+	leg := os.Getenv("VF_LEG")
+	if leg == "" {
+		leg = "logsched"
+	}
+	st := vfkit.NewStats(focus, leg)
 	defer st.Flush()
 	rapid.Check(t, func(rt *rapid.T) {
 		p := c01DrawPlan(rt)
